@@ -453,13 +453,13 @@ def send_tx(
             msgs = [
                 bip143.witness_message(
                     txins,
-                    utxo["vout"],
+                    txin_index,
                     round(utxo["amount"] * 1e8),
                     scriptcode,
                     txouts,
                     sighash_flag=sighash_flag,
                 )
-                for utxo in selected_utxos
+                for txin_index, utxo in enumerate(selected_utxos)
             ]
             signatures = [
                 [
